@@ -119,6 +119,7 @@ impl<D: BatchDriver> Scheduler for BatchScheduler<D> {
         self.cur.as_ref().map(|_| Schedule::new(0))
     }
     fn next_task(&mut self, runnable: &[&Task], current: Option<TaskId>, is_yielding: bool) -> Option<TaskId> {
+        crate::rng::tick();
         self.cur.as_mut().expect("decider").next_task(runnable, current, is_yielding)
     }
     fn next_u64(&mut self) -> u64 {
